@@ -6,7 +6,7 @@ from .. import core, femcommon as fc, gen_mesh as gm
 ID = "C07"
 LIMIT = 40.0
 RULE = ("diffusion: meshes as in C01 (tria + tet, float64, all vertices used, several components, scales) x seed sets (1..4 vertices, "
-        "with repeats) x m in {0.3, 1, 4} x (triangles) aniso in {None, 0, 2}; each followed by a second call on the SAME object after an "
+        "with repeats) x m in {0.3, 1, 4} x (triangles) aniso in {None, 0, 2, 0.5, 2.5}; each followed by a second call on the SAME object after an "
         "in-place change (normalize_ / scaling of v) and by calls on rigidly moved + relabelled and on scaled copies; kernel/diagonal: "
         "random eigen-decompositions (ascending, descending and shuffled eigenvalue order) x time rows T in 1..4 x n in 1..N x vertex "
         "ids. distinct = hash of the case; non-trivial = >= 2 distinct seeds or T >= 2")
@@ -43,7 +43,7 @@ def generate(rng, tier):
             continue
         n = len(v)
         cases.append({"kind": "tria", "family": "aniso", "v": v, "t": t, "lump": True, "vdtype": "float64", "tdtype": "int64",
-                      "ctype": "diffusion", "vids": [rng.randrange(n), rng.randrange(n)], "m": 1.0, "aniso": rng.choice([0, 2]),
+                      "ctype": "diffusion", "vids": [rng.randrange(n), rng.randrange(n)], "m": 1.0, "aniso": rng.choice([0, 2, 0.5, 2.5]),
                       "tseed": rng.randrange(1 << 30), "inplace": "normalize"})
     for k in range(40 if tier == "quick" else 400):
         M, N = rng.randint(3, 9), rng.randint(2, 6)
